@@ -156,8 +156,13 @@ class Family:
         marked = []
         idx_map = []
         for k, ((p, r), cr) in enumerate(zip(failed, res)):
-            if cr.get("ok") and IL.strip_kf(cr["rzil"]) == p.rzil and cr["rzil"] != p.rzil:
-                marked.append(D.Prog(p.name, p.src, cr["rzil"], exports=p.exports, c_subs=p.c_subs, il_sub_defs=p.il_sub_defs,
+            if not cr.get("ok") or IL.strip_kf(cr["rzil"]) != p.rzil:
+                continue
+            msubs = cr.get("sub_defs") or {}
+            if {n: IL.strip_kf(d) for n, d in msubs.items()} != (p.il_sub_defs or {}):
+                continue
+            if cr["rzil"] != p.rzil or msubs != (p.il_sub_defs or {}):
+                marked.append(D.Prog(p.name, p.src, cr["rzil"], exports=p.exports, c_subs=p.c_subs, il_sub_defs=msubs,
                                      extra={k: v for k, v in p.extra.items() if k in ("states_fn", "nstates")}))
                 idx_map.append(k)
         repaired = {}
